@@ -97,9 +97,30 @@ def op_strategy():
     )
 
 
+@st.composite
+def storm_strategy(draw):
+    """Directed histories: two namespaces of one kind and many automatic names created in the first one, with a
+    switch to the second namespace and back before each creation (every switch restarts the automatic counter, so
+    the same counter based name is proposed again and again and must be made unique every time, also against the
+    names that earlier collisions produced)."""
+    kind = draw(st.sampled_from(["log", "tasker", "logger", "framer", "frame"]))
+    n = draw(st.integers(10, 34))
+    if kind == "frame":
+        ops = [{"op": "house", "name": "", "h": 0, "f": 0}, {"op": "framer", "name": "", "h": 0, "f": 0},
+               {"op": "framer", "name": "", "h": 0, "f": 0}]
+        for _ in range(n):
+            ops += [{"op": "fassign", "f": 0}, {"op": "frame", "name": "", "h": 0, "f": 0}, {"op": "fassign", "f": 1}]
+    else:
+        ops = [{"op": "house", "name": "", "h": 0, "f": 0}, {"op": "house", "name": "", "h": 0, "f": 0}]
+        for _ in range(n):
+            ops += [{"op": "assign", "h": 0}, {"op": kind, "name": "", "h": 0, "f": 0}, {"op": "assign", "h": 1}]
+    return ops
+
+
 def history_strategy(max_steps):
     op = op_strategy()
-    return st.integers(1, max_steps).flatmap(lambda n: st.lists(op, min_size=n, max_size=n))
+    plain = st.integers(1, max_steps).flatmap(lambda n: st.lists(op, min_size=n, max_size=n))
+    return st.one_of(plain, plain, plain, plain, plain, plain, plain, storm_strategy())
 
 
 # ------------------------------------------------------------------------------ model
